@@ -623,3 +623,31 @@ int scaledext_good(const uint8_t* table, size_t table_size, int32_t count, const
     }
     return 0;
 }
+
+/* ---- R40 loop cursor (rules/loopcursor.py) */
+void ctl_unpack8(const uint8_t* in, int w, uint32_t* out) { for (int i = 0; i < 8; i++) out[i] = in[(i * w) / 8]; }
+int loopcursor_bad(const uint8_t* in, int groups, int w, int16_t* out, int fast) {
+    const uint8_t* packed = in;
+    int n = 0;
+    for (int g = 0; g < groups; g++) {
+        uint32_t tmp[8];
+        ctl_unpack8(packed, w, tmp);
+        if (fast) { for (int i = 0; i < 8; i++) out[n++] = (int16_t)tmp[i]; continue; }   /* skips the advance below */
+        for (int i = 0; i < 8; i++) out[n++] = (int16_t)(tmp[i] & 0xFFFF);
+        packed += w;
+    }
+    return n;
+}
+int loopcursor_good(const uint8_t* in, int groups, int w, int16_t* out, int fast) {
+    const uint8_t* packed = in;
+    int n = 0;
+    for (int g = 0; g < groups; g++) {
+        uint32_t tmp[8];
+        if (w == 0) { for (int i = 0; i < 8; i++) out[n++] = 0; continue; }       /* nothing read: nothing to step over */
+        ctl_unpack8(packed, w, tmp);
+        packed += w;
+        if (fast) { for (int i = 0; i < 8; i++) out[n++] = (int16_t)tmp[i]; continue; }
+        for (int i = 0; i < 8; i++) out[n++] = (int16_t)(tmp[i] & 0xFFFF);
+    }
+    return n;
+}
